@@ -14,11 +14,11 @@ META = dict(
     level="exploration",
     design_ref="DESIGN.md §5 C47",
     technique="differential execution: the same cards solved in fresh child processes with different PYTHONHASHSEED (and different TMPDIR/cwd); archives compared member by member by an independent tar/lz4/npy reader",
-    level_text="Random tiny cards (LO/NLO, 1-3 targets across 0-2 thresholds, several methods, with and without pool) are each solved in >=4 fresh processes; member name sets and the sha256 of every decompressed array (dtype, shape, bytes) and every yaml member must be identical. Sampling of cards, not exhaustive.",
+    level_text="A fixed LOxQED card with segments at nf=4,5,6 and random tiny cards (LO/NLO, 1-3 targets across 0-2 thresholds, several methods, with and without pool) are each solved in >=4 fresh processes; member name sets and the sha256 of every decompressed array (dtype, shape, bytes) and every yaml member must be identical. Sampling of cards, not exhaustive.",
     level_note="Tar mtimes/order and the zip timestamps inside .npz containers are ignored (arrays inside are hashed). Trusted base: the independent reader vlib/oracles/archive_digest.py.",
     rule="case = (card index, hash seed) compared with the card's first run; distinct by (card parameters, seed); non-trivial = both archives complete with >=1 operator and >=2 parts, and the two runs used different hash seeds (or are an exact repeat)",
     min_nontrivial=10,
-    required_hits=["archives_compared", "members_compared"],
+    required_hits=["archives_compared", "members_compared", "qed_nf5_archives_compared"],
     max_inconclusive_frac=0.1,
 )
 
@@ -78,6 +78,13 @@ def gen_card(rng, i, thorough):
     return th, op
 
 
+def qed_card():
+    """Fixed QCDxQED card whose paths have segments at nf = 4, 5 and 6 (every flavour block of the unified basis)."""
+    th = W.raw_theory(order=(1, 1), alphas=0.118, ref=(91.2, 5), xif=1.0, matching_order=None)
+    op = W.raw_operator(init=(1.65, 4), mugrid=[(10.0, 5), (200.0, 6)], xgrid=np_geom(1e-2, 3), method="iterate-exact", iterations=1, degree=1, inversion="expanded", cores=1)
+    return th, op
+
+
 def np_geom(lo, n):
     import numpy as np
 
@@ -89,7 +96,7 @@ def run(ck):
     seeds = [0, 1, 12345, "random"] if ck.quick else [0, 1, 12345, 987654321, "random", "random"]
     with scratch.tmpdir(prefix="c47-") as root:
         root = pathlib.Path(root)
-        cards = [gen_card(ck.rng, i, ck.thorough) for i in range(ncards)]
+        cards = [qed_card()] + [gen_card(ck.rng, i, ck.thorough) for i in range(ncards)]
         specs = []
         for i, (th, op) in enumerate(cards):
             for j, s in enumerate(seeds + [seeds[0]]):  # last one = exact repeat of the first
@@ -117,6 +124,8 @@ def run(ck):
                 hs = got[0]["hashseed"]
                 d = got[2]["digest"]
                 ck.hit("archives_compared")
+                if th["order"][1] > 0 and any(nf >= 5 for _mu, nf in op["mugrid"]):
+                    ck.hit("qed_nf5_archives_compared")
                 ck.hit("members_compared", len(set(d) | set(d0)))
                 ck.case(key, nontrivial=n_ops >= 1 and n_parts >= 2, sample=dict(card=desc, hashseed=[seeds[0], hs], members=len(d0), operators=n_ops, parts=n_parts))
                 df = ad.diff(d0, d)
